@@ -856,3 +856,74 @@ class ScaleGen(Gen):
         if self.tail:
             return self.tail.pop(0)
         return None
+
+
+class TSweepGen(Gen):
+    """Threshold placement sweep: one request is driven, task by task, up to the point where the pool is about to start
+    its K-th task (K around the powers of two and ten); then one running task is let go and a cancellation of the group
+    (or of everything) is placed `offset` handles later - one run per offset - i.e. at every boundary of the few loop
+    iterations in which the K-th start happens.  Afterwards the rest is drained; the capacity probe closes the run."""
+
+    KS = [64, 100, 128, 256, 1000, 1024]
+
+    def __init__(self, seed, prop, K, offset, variant):
+        super().__init__(seed, prop, True)
+        self.K, self.offset, self.variant = K, offset, variant
+        self.stage = 0
+        self.queue = []
+
+    def make_config(self):
+        rng = self.rng
+        size = rng.choice([1, 2, 3])
+        if self.variant == 2:
+            p = {"cls": "S", "size": size, "fk": "sync", "fn": 0, "ash": 0, "ecb": rng.choice([None, "s"]), "ccb": None, "sc": [{"g": 1}]}
+        else:
+            p = {"cls": "T", "size": size}
+        return {"hmask": 0, "pools": [p]}
+
+    def next_step(self, sim):
+        if sim.hit_cap:
+            return None
+        if self.queue:
+            return self.queue.pop(0)
+        pc = sim.pools[0]
+        rng = self.rng
+        if self.stage == 0:
+            self.stage = 1
+            n = self.K + 6
+            if self.variant == 2:
+                st = {"op": "spawn", "p": 0, "r": 1, "kind": "start", "num": n}
+            elif self.variant == 1:
+                st = {"op": "spawn", "p": 0, "r": 1, "kind": "map", "fk": "sync", "elems": [0] * n, "nc": pc.size, "sc": [{"g": 1}],
+                      "ecb": rng.choice([None, "s"])}
+            else:
+                st = {"op": "spawn", "p": 0, "r": 1, "kind": "apply", "fk": "sync", "num": n, "sc": [{"g": 1}], "ecb": rng.choice([None, "s"])}
+            self.queue.append({"op": "idle"})
+            return st
+        keys = [k for k in sim.pending_gates() if k[0] == "w"]
+        if self.stage == 1:
+            if len(pc.tasks) < self.K - 1 and keys:
+                self.queue.append({"op": "idle"})
+                return {"op": "gate", "key": list(keys[0])}
+            self.stage = 2
+            if keys:
+                if self.offset:
+                    self.queue.append({"op": "run", "n": self.offset})
+                self.queue.append({"op": "cancel_group", "p": 0, "r": 1} if rng.random() < 0.7 else {"op": "cancel_all", "p": 0})
+                self.queue.append({"op": "idle"})
+                return {"op": "gate", "key": list(keys[0])}
+        if self.stage == 2:
+            if keys:
+                self.queue.append({"op": "idle"})
+                return {"op": "gate", "key": list(keys[0])}
+            self.stage = 3
+            # fill the pool to its size once more: a slot lost on the way shows as is_full with too few running
+            self.queue += [{"op": "spawn", "p": 0, "r": 2, "kind": "start" if pc.cls == "S" else "apply", "fk": "sync",
+                            "num": pc.size + 1, "sc": [{"g": 1}]}, {"op": "idle"}, {"op": "read"}]
+            return {"op": "idle"}
+        if self.stage == 3:
+            if keys:
+                self.queue.append({"op": "idle"})
+                return {"op": "gate", "key": list(keys[0])}
+            self.stage = 4
+        return None
